@@ -341,7 +341,8 @@ func VerifyFunction(p *Program, cs *Contracts, fn *ssa.Function, con *Contract) 
 			case specErr:
 				res.Err = "contract error: " + string(r)
 			default:
-				panic(r)
+				// an internal error of the generator must never look like success
+				res.Err = fmt.Sprintf("internal error of the VC generator: %v", r)
 			}
 		}
 	}()
